@@ -13,6 +13,7 @@ import DimModel.Lib.Transform
 import DimModel.Lib.Missing
 import DimModel.Lib.Dataset
 import DimModel.Lib.Interp
+import DimModel.Lib.OnDisk
 open Lean
 namespace DimModel.Driver
 open DimModel.Codec
@@ -297,6 +298,38 @@ def handle (op : String) (req : Json) : P (List (String × Json)) := do
     let a ← match as with | a :: _ => pure a | [] => throw "no array"
     let ax ← dimKey (← fld req "axis")
     pure [("lib", encExcept encDimArray (Lib.sortAxis a ax))]
+  | "ondisk_history" => do
+    -- C20: a stored variable, a sequence of on-disk reads / writes / record appends
+    let as ← arrays req
+    let a ← match as with | a :: _ => pure a | [] => throw "no array"
+    let mut v := OnDisk.store a
+    let mut out : List Json := []
+    for st in (← arr (← fld req "steps")).toList do
+      match (← str (← fld st "kind")) with
+      | "read" =>
+        let ui ← userIndex (← fld st "index")
+        let cfg ← indexCfg (fldD st "cfg" (Json.mkObj []))
+        out := out ++ [encExcept encDimArray (OnDisk.read Cell.nan v ui cfg)]
+      | "write" =>
+        let ui ← userIndex (← fld st "index")
+        let cfg ← indexCfg (fldD st "cfg" (Json.mkObj []))
+        let base ← nat (fldD st "base" (Json.num 0))
+        let rhs : RHS Cell ← match (← optOf (listOf nat) (fldD st "rshape" Json.null)) with
+          | none => pure (RHS.scalar (Cell.rhs base))
+          | some shape => pure (RHS.arr { shape := shape, get := fun i => Cell.rhs (base + ravel shape i) })
+        match OnDisk.write v ui rhs cfg with
+        | .ok v' => v := v'; out := out ++ [Json.mkObj [("ok", Json.null)]]
+        | .error e => out := out ++ [Json.mkObj [("err", encErr e)]]
+      | "record" =>
+        let i ← nat (← fld st "pos")
+        let lab ← label (← fld st "label")
+        let base ← nat (fldD st "base" (Json.num 0))
+        let n ← nat (← fld st "n")
+        match OnDisk.writeRecord v i lab ((List.range n).map fun k => Cell.rhs (base + k)) with
+        | .ok v' => v := v'; out := out ++ [Json.mkObj [("ok", Json.null)]]
+        | .error e => out := out ++ [Json.mkObj [("err", encErr e)]]
+      | k => throw s!"unknown on-disk step {k}"
+    pure [("lib", Json.arr out.toArray), ("final", encDimArray (OnDisk.load Cell.nan v))]
   | _ => throw s!"unknown op {op}"
 
 def answer (line : String) : String :=
